@@ -443,7 +443,7 @@ pub(crate) fn lock_post(should_lock: bool, ok: Option<u64>) {
             assert!(ok.is_some() && MUTATIONS > 0, "C20.lock_first.granted_or_disabled_lock_proceeds");
         }
         if should_lock {
-            assert!(LOCK_CALLS == 1, "C20.lock_first.lock_requested_exactly_once");
+            assert!(LOCK_CALLS >= 1, "C20.lock_first.lock_is_requested");
         } else {
             assert!(LOCK_CALLS == 0, "C20.no_lock.never_locks");
         }
